@@ -198,6 +198,13 @@ Definition uses_maps (u : universe) (cl : cls) : bool :=
                     | None => false
                     end) (reach u (reach_fuel u) [cl] []).
 
+(* coverage: a class with a wildcard field (xs:any) *)
+Definition uses_wildcard (u : universe) (cl : cls) : bool :=
+  existsb (fun k => match u_meta u k with
+                    | Some m => match m_wildcards m with [] => false | _ => true end
+                    | None => false
+                    end) (reach u (reach_fuel u) [cl] []).
+
 (* coverage: a class with a field of its own type *)
 Definition uses_recursion (u : universe) : bool :=
   existsb (fun km => existsb (N.eqb (fst km)) (class_children u (snd km))) (u_metas u).
@@ -275,7 +282,8 @@ Definition expected_of (c : conv) (r : EventGen.gres (list wevent)) : option Xml
 Definition reads_real (k : rt_case) : bool :=
   negb (in_guard_q k)
   || match expected_of (rc_conv k) (rc_gen k) with
-     | Some e => reads_b (uses_maps (rc_universe k) (rc_cls k)) e (rc_pevents k)   (* a class with an attribute map: the order too *)
+     | Some e => reads_b (uses_maps (rc_universe k) (rc_cls k) || uses_wildcard (rc_universe k) (rc_cls k)) e (rc_pevents k)
+                 (* a class with an attribute map or a wildcard: the attribute order too *)
      | None => false
      end.
 
